@@ -57,6 +57,9 @@ type IfaceSym struct {
 	Name     string
 	Payloads map[string]Val
 	Ghosts   map[string]*Term
+	// PanicKind: the failure kind a panic with this value counts as (set from the producing contract's
+	// `option errorkind=K`)
+	PanicKind string
 }
 
 type IfaceV struct {
